@@ -303,6 +303,27 @@ pub fn extras(r: &mut Rng, cases: usize, big: bool) -> Vec<(String, ExtraCase)> 
         let cow: std::borrow::Cow<'_, str> = std::borrow::Cow::Borrowed("abc");
         out.push(("Cow_str".into(), run_extra(&cow, "Cow_str", r, ncmds)));
     }
+    // locks in unusual states: a poisoned std mutex (a thread panicked while holding it) and one that is locked
+    // right now serve no child; the count has to say so too
+    {
+        let poisoned = std::sync::Arc::new(std::sync::Mutex::new(5u32));
+        let p2 = poisoned.clone();
+        let _ = std::thread::spawn(move || {
+            let _g = p2.lock().unwrap();
+            std::panic::resume_unwind(Box::new("poison the lock"));
+        })
+        .join();
+        out.push(("PoisonedStdMutex_u32".into(), run_extra(&*poisoned, "PoisonedStdMutex_u32", r, 4)));
+        out.push(("Arc_PoisonedStdMutex_u32".into(), run_extra(&poisoned, "Arc_PoisonedStdMutex_u32", r, 4)));
+        let pair = (1u8, std::sync::Mutex::new(vec![1u8, 2]), 2u8);
+        out.push(("Tup_StdMutex".into(), run_extra(&pair, "Tup_StdMutex", r, 4)));
+        let rw = parking_lot::RwLock::new(3u16);
+        out.push(("PlRwLock_u16".into(), run_extra(&rw, "PlRwLock_u16", r, 4)));
+        let pm = parking_lot::Mutex::new(vec![3u32]);
+        out.push(("PlMutex_Vec_u32".into(), run_extra(&pm, "PlMutex_Vec_u32", r, 4)));
+        let rc = std::cell::RefCell::new(String::from("x"));
+        out.push(("RefCell_String".into(), run_extra(&rc, "RefCell_String", r, 4)));
+    }
     if big {
         // more children than the default `introspect_len` is willing to count
         let arr = [7u8; 10001];
